@@ -62,6 +62,7 @@ def run(ctx):
         ctx.floor("E2.diagonal", "(signature variant, ciphertext scheme) pairs", npairs, 9)
     # "...or recombined from threshold shares": every share reaches the signature combiner
     F.check_combiner_images(ctx, "E6.combine", P, only=("Signature<C>::from_shares",))
+    F.check_core_combiners(ctx, "E6.combine", P)
     F.check_combiner_lengths(ctx, "E4.len-range", P)
     # open flag
     u = ctx.need_fn("E4.flag", "BlsTimeCrypt::unseal")
